@@ -3,6 +3,7 @@ package main
 import (
 	"context"
 	"fmt"
+	cid "github.com/ipfs/go-cid"
 	"os"
 	"path/filepath"
 	"strings"
@@ -256,8 +257,12 @@ func (r *lcRun) run(b Behaviour, idx int) {
 		return
 	}
 	defer os.RemoveAll(r.dir)
+	wedged := false
 	defer func() {
 		sim.TheHub.ReleaseAll()
+		if wedged {
+			return // a call on the instance never returned: closing it would hang this process too
+		}
 		_ = r.inst.Close()
 		_ = r.rem.Close()
 	}()
@@ -272,6 +277,22 @@ func (r *lcRun) run(b Behaviour, idx int) {
 	mark("%s: position writer=%d replication=%d load=%d then close kind %s", b.ID, w, rp, l, kind)
 	r.position(w, rp, l)
 	r.res.Steps++
+	// in every second moment with a load in flight, the block of the head that load is about to read is nowhere to be had
+	// (as if its provider had left): the load waits for it, and the close must end that wait
+	var gone cid.Cid
+	var goneData []byte
+	if l > 1 && idx%2 == 0 {
+		if p := r.parkedAt("load.head.begin", 0, 100*time.Millisecond); p != nil && len(p.Args) > 1 {
+			if he, ok := p.Args[1].(ipfslog.Entry); ok && he != nil {
+				for _, peer := range []*sim.Peer{r.inst.P, r.rem.P} {
+					if data, ok := peer.DropBlock(he.GetHash()); ok {
+						gone, goneData = he.GetHash(), data
+					}
+				}
+				r.res.Stats["loads_waiting_for_a_block"]++
+			}
+		}
+	}
 	// close
 	closeOnce := func() error {
 		switch kind {
@@ -317,8 +338,15 @@ func (r *lcRun) run(b Behaviour, idx int) {
 		select {
 		case <-r.loadDone:
 		case <-time.After(5 * time.Second):
-			r.violate("hang", "a load in flight when the store was closed never returns")
+			if gone.Defined() {
+				r.violate("hang", "a load that was waiting for a block when the store was closed does not return (close kind "+kind+")")
+			} else {
+				r.violate("hang", "a load in flight when the store was closed never returns")
+			}
 		}
+	}
+	if gone.Defined() {
+		r.inst.P.PutBlock(gone, goneData)
 	}
 	// every background activity the store (or instance) started comes to an end
 	instanceWide := strings.HasPrefix(kind, "instance")
@@ -388,6 +416,35 @@ func (r *lcRun) run(b Behaviour, idx int) {
 			return nil
 		})
 	}
+	// the database is opened again on the same instance, then the closed handle is dropped: Drop removes the local data
+	// of that database, returns, and leaves the instance usable
+	dropped := kind == "drop"
+	if (kind == "store" || kind == "store-twice") && idx%2 == 1 {
+		dropped = true
+		r.res.Comparisons++
+		r.res.Stats["drop_of_closed_handle_after_reopen"]++
+		mark("%s: open again, then Drop of the closed handle", b.ID)
+		var again *sim.StoreRef
+		if _, hung := r.watchdog("opening the database again after "+kind, 6*time.Second, func() error {
+			var err error
+			again, err = r.inst.Open(r.main.Addr, "keyvalue", nil)
+			return err
+		}); hung {
+			wedged = true
+			return
+		}
+		if again != nil {
+			if _, hung := r.watchdog("Drop of the closed handle after the database was opened again", 6*time.Second, func() error { return r.main.S.Drop() }); hung {
+				wedged = true
+				return
+			}
+			if _, hung := r.watchdog("Close of the second handle after the first was dropped", 6*time.Second, func() error { return again.S.Close() }); hung {
+				wedged = true
+				return
+			}
+			again.Closed = true
+		}
+	}
 	// the sibling database of the same instance is untouched (unless the whole instance was closed)
 	if !instanceWide {
 		r.res.Comparisons++
@@ -447,7 +504,7 @@ func (r *lcRun) run(b Behaviour, idx int) {
 		r.violate("reopen", "Load after reopening failed: "+err.Error())
 	} else {
 		all := m2.S.(orbitdb.KeyValueStore).All()
-		if kind == "drop" {
+		if dropped {
 			// dropped: local data gone (what was replicated elsewhere may come back later, not by Load)
 			if len(all) != 0 {
 				r.violate("drop", fmt.Sprintf("after Drop and reopen the database still shows %d keys from local data", len(all)))
